@@ -20,6 +20,8 @@ func init() {
 					Entries: []Entry{
 						{Fn: "Harness_C13_maplattice_laws", Tiers: "both", Reach: []string{"end"}, Bounds: "all triples of maps over keys {0,1} (nil / presence enumerated), values symbolic non-empty 4-bit sets under union"},
 						{Fn: "Harness_C13_denselattice_laws", Tiers: "both", Reach: []string{"end"}, Bounds: "all triples of dense maps of length 0..3 over symbolic 4-bit sets under union"},
+						{Fn: "Harness_C13_maplattice_laws_inter", Tiers: "both", Reach: []string{"end"}, Bounds: "intersection element lattice (Ident = all ones, not the zero value); all triples of dense maps of length 0..3 over symbolic 4-bit sets under union"},
+						{Fn: "Harness_C13_denselattice_laws_inter", Tiers: "both", Reach: []string{"end"}, Bounds: "intersection element lattice (Ident = all ones); all triples of dense maps of length 0..3 over symbolic 4-bit sets under union"},
 					},
 				},
 				{
